@@ -171,7 +171,7 @@ class CompactFilter:
 
         if key is not None:
             try:
-                return [itm for itm in left if itm[key] is not None]
+                return [itm for itm in left if _getitem(itm, key) is not None]
             except TypeError as err:
                 raise LiquidTypeError(
                     f"can't read property '{key}'", token=None
